@@ -8,7 +8,6 @@ import (
 
 	"github.com/dominant-strategies/go-quai/common"
 	"github.com/dominant-strategies/go-quai/core/rawdb"
-	"github.com/dominant-strategies/go-quai/log"
 )
 
 func init() { areas["chain"] = runChain }
@@ -17,7 +16,7 @@ func runChain(seed uint64, n int, outDir string, replay string) {
 	o := h.NewOut(outDir, "chain")
 	rg := cwRegime{preTx: os.Getenv("QVH_PRETX") != ""}
 	cwSetParams(rg)
-	w, err := newWorld(rawdb.NewMemoryDatabase(log.Global), h.NewRng(seed), rg, zoneOpts{})
+	w, err := newWorld(newMemDB(), h.NewRng(seed), rg, zoneOpts{})
 	if err != nil {
 		fmt.Println("ERR", err)
 		o.Close(nil)
